@@ -317,8 +317,10 @@ class Ctx:
             "wall_s": round(time.time() - self.t0, 2),
             "violations": len(seen),
         }
-        os.makedirs(os.path.join(VERIF, "evidence"), exist_ok=True)
-        with open(os.path.join(VERIF, "evidence", self.pid + ".json"), "w") as f:
+        # checks of behaviour beyond the listed properties (ids X..) keep their evidence apart
+        evdir = os.path.join(VERIF, "evidence_extra" if self.pid.startswith("X") else "evidence")
+        os.makedirs(evdir, exist_ok=True)
+        with open(os.path.join(evdir, self.pid + ".json"), "w") as f:
             json.dump(ev, f, indent=1, sort_keys=True)
             f.write("\n")
         if os.environ.get("VERIF_KEEP_WORK") != "1":
